@@ -577,3 +577,63 @@ def _L_member(ex, st, l, x):
             z3.Implies(c, z3.Exists([k], z3.And(0 <= k, k < z3.Length(l.e), l.e[k] == xe))),
         )
     )
+
+
+# ---------------------------------------------------------------- naming the result of pure heap-reading functions
+def heap_fn(name, fields, rsort, rwrap):
+    """spec function = an uninterpreted function of the receiver, the arguments and the heap fields the real function
+    reads (assumption: a pure function is a deterministic function of its arguments and of the fields it reads)."""
+
+    def f(ex, st, recv, *args):
+        arrs = []
+        for fld in fields:
+            ty = parse_type(ex.reg.field_types[fld])
+            for i, srt in enumerate(flat_sorts(ty)):
+                arrs.append(st.harr(f"{fld}#{i}", z3.IntSort(), srt))
+        argv = [recv.e] + [flat(a)[0] if not isinstance(a, VOpt) else a.val.e for a in args] + arrs
+        fn = z3.Function(name, *([a.sort() for a in argv] + [rsort]))
+        return rwrap(fn(*argv))
+
+    SPEC.funcs[name] = f
+
+
+ROUTE_FIELDS = ["MHLHistory.child_history_mappings", "MHLHistory.child_histories", "MHLHistory.asc_mhl_path"]
+heap_fn("route_h", ROUTE_FIELDS, I, lambda e: VRef("MHLHistory", e, False))
+heap_fn("route_p", ROUTE_FIELDS, S, lambda e: VStr(e))
+heap_fn("route_p_none", ROUTE_FIELDS, B, lambda e: VBool(e))
+
+
+@SPEC.fn("dict_same_except")
+def _dict_same_except(ex, st, new, old, key):
+    """every key other than `key` has the same presence and the same value in both dicts"""
+    k = z3.Const(fresh_name("k"), new.keys.sort().basis())
+    ke = flat(coerce(key, new.kty))[0]
+    if isinstance(new.vty, TRef):
+        return VBool(z3.ForAll([k], z3.Implies(k != ke, z3.Select(new.m, k) == z3.Select(old.m, k))))
+    return VBool(
+        z3.ForAll(
+            [k],
+            z3.Implies(
+                k != ke,
+                z3.And(
+                    z3.Contains(new.keys, z3.Unit(k)) == z3.Contains(old.keys, z3.Unit(k)),
+                    z3.Implies(z3.Contains(old.keys, z3.Unit(k)), z3.Select(new.m, k) == z3.Select(old.m, k)),
+                ),
+            ),
+        )
+    )
+
+
+@SPEC.fn("append")
+def _append(ex, st, l, x):
+    """l + [x] with the purified description (length, element-wise) added as facts about the fresh name"""
+    xe = flat(coerce(x, l.elem_ty))[0]
+    new = z3.Concat(l.e, z3.Unit(xe))
+    r = z3.Const(fresh_name("gapp"), new.sort())
+    n = z3.Length(l.e)
+    j = z3.Int(fresh_name("j"))
+    st.assume(r == new)
+    st.assume(z3.Length(r) == n + 1)
+    st.assume(r[n] == xe)
+    st.assume(z3.ForAll([j], z3.Implies(z3.And(0 <= j, j < n), r[j] == l.e[j])))
+    return VList(l.elem_ty, r)
